@@ -233,6 +233,16 @@ func driverEll(c *Ctx) {
 			t = &GItem{F: "L", Kids: []*GItem{{F: "L", Kids: []*GItem{{F: "U1", Vals: []interface{}{"x"}}, {F: "", Var: "...[0]"}}}, {F: "", Var: "...[1]"}}}
 			counts = map[string]int{"...[1]": 8 + g.pick(6)}
 		}
+		if i%16 == 7 {
+			// an outer index that gains a digit (9 -> 10) while an inner ellipsis is expanded in every copy, at two depths
+			inner := &GItem{F: "L", Kids: []*GItem{{F: "U1", Vals: []interface{}{"a"}}, {F: "", Var: "...[0]"}, {F: "A", IsVar: true, Var: "b", Lo: 0, Hi: -1}}}
+			mid := &GItem{F: "L", Kids: []*GItem{inner, {F: "", Var: "m"}, {F: "", Var: "...[1]"}}}
+			t = &GItem{F: "L", Kids: []*GItem{mid, {F: "BOOLEAN", Vals: []interface{}{"c"}}, {F: "", Var: "...[2]"}}}
+			counts = map[string]int{"...[0]": 1 + g.pick(2), "...[1]": []int{0, 1, 9, 10, 11}[g.pick(5)], "...[2]": []int{9, 10, 11, 12}[g.pick(4)]}
+			if g.pick(3) == 0 {
+				delete(counts, "...[1]")
+			}
+		}
 		c.emit(i, ellEvent(g, t.Build(), counts))
 		c.count("ell.cases")
 	}
